@@ -195,8 +195,8 @@ func main() {
 			if !haveBlock {
 				hb = nil
 			}
-			sh.Add(fmt.Sprintf("CSel %d %s %d %d %d %d %s %d %s %s", k, coqBytesZ(hb), voted, unclaimed, normal, cands,
-				lib.CoqZi(oseed), on, lib.CoqZi(oval), lib.CoqZi(int64(code))))
+			sh.Add(fmt.Sprintf("CSel %d %s %d %d %d %d %s %s %s %s", k, coqBytesZ(hb), voted, unclaimed, normal, cands,
+				lib.CoqZi(oseed), lib.CoqZi(on), lib.CoqZi(oval), lib.CoqZi(int64(code))))
 			st.LogCase(run.Out, k, map[string]interface{}{"op": "getCandidateIndexAtRandom", "corpus": corpus, "height": height, "block_nonce_ts": salt, "hash8": fmt.Sprintf("%x", hb),
 				"voted": voted, "unclaimed": unclaimed, "schedule": s.name, "out": code})
 			st.Count(fmt.Sprintf("sel:%d:%d", oseed, n), code >= 0, "getCandidateIndexAtRandom/"+strings.SplitN(s.name, " ", 2)[0])
